@@ -218,6 +218,20 @@ theorem C08_dipole_frame_orthonormal (pos o : V3) (cf bw : ℝ) (eh : Option ℝ
       rw [V3.normalize_dot_normalize o c ho hc, ht, V3.dot_cross_self, zero_div]
     · cases eh <;> rfl
 
+/-- an antenna has no hidden state: re-orienting an existing antenna gives exactly the antenna a
+fresh construction with the current parameters gives (and `set_orientation` raises exactly when the
+constructor would), so every response after any history of `set_orientation` calls and attribute
+assignments is the response of a fresh antenna with the current parameters -/
+theorem C08_reorient_eq_fresh (A : Antenna) (z x : V3) :
+    mkAntenna A.pos z x A.af A.eff
+      = (if (A.setOrientation z x).2 then some (A.setOrientation z x).1 else none) ∧
+    (A.setOrientation z x).1.pos = A.pos ∧ (A.setOrientation z x).1.af = A.af ∧
+    (A.setOrientation z x).1.eff = A.eff ∧
+    (A.setOrientation z x).1.zAxis = z.normalize ∧ (A.setOrientation z x).1.xAxis = x.normalize := by
+  refine ⟨?_, rfl, rfl, rfl, rfl, rfl⟩
+  unfold mkAntenna setOrientation Antenna.setOrientation
+  by_cases h : Rabs (z.normalize.dot x.normalize) ≤ 1e-8 <;> simp [h]
+
 /-! ## non-vacuity -/
 
 /-- a concrete rotation that is not a coordinate permutation: the rational rotation with rows
